@@ -23,3 +23,37 @@ package lint
 //@   ensures  [none] !str_prefixof("//lint:", s) ==> cmd == "" && len(args) == 0
 //@   ensures  [cmd]  str_prefixof("//lint:", s) ==> cmd == strings.Split(s[7:], " ")[0]
 //@   ensures  [args] str_prefixof("//lint:", s) ==> len(args) == len(strings.Split(s[7:], " ")) - 1 && (forall i int :: {args[i]} 0 <= i && i < len(args) ==> args[i] == strings.Split(s[7:], " ")[i+1])
+
+//@ extern go/ast.NewCommentMap(fset *token.FileSet, node ast.Node, comments []*ast.CommentGroup) ast.CommentMap
+//@   pure
+
+// ParseDirectives returns a directive for EVERY comment that starts with "//lint:", in every
+// comment group the comment map attaches to any node, in every file (no file, node, group or
+// comment is skipped), attached to that node.
+// hasN(dirs, c, node, n): one of the first n directives is the comment c attached to node
+//@ ghost hasN(dirs []Directive, c *ast.Comment, node ast.Node, n int) bool = n > 0 && ((dirs[n-1].Directive == c && dirs[n-1].Node == node) || hasN(dirs, c, node, n-1))
+//@ ghost has(dirs []Directive, c *ast.Comment, node ast.Node) bool = hasN(dirs, c, node, len(dirs))
+// hasN depends only on the first n elements (pdiff is an index below n at which the two slices
+// differ, if there is one): a fact about sequences, assumed
+//@ ghost pdiff(d1 []Directive, d2 []Directive, n int) int
+//@ axiom [hasN_prefix] forall d1 []Directive, d2 []Directive, c *ast.Comment, node ast.Node, n int :: {hasN(d1, c, node, n), hasN(d2, c, node, n)} 0 <= n && n <= len(d1) && n <= len(d2) && !(0 <= pdiff(d1, d2, n) && pdiff(d1, d2, n) < n && d1[pdiff(d1, d2, n)] != d2[pdiff(d1, d2, n)]) ==> hasN(d1, c, node, n) == hasN(d2, c, node, n)
+//@ ghost isDir(c *ast.Comment) bool = str_prefixof("//lint:", c.Text)
+//@ ghost cmOf(fset *token.FileSet, f *ast.File) ast.CommentMap = ast.NewCommentMap(fset, f, f.Comments)
+//@ func ParseDirectives
+//@   nosafe   nil
+//@   ensures  [complete] forall a int, node ast.Node, g int, ci int :: {cmOf(fset, files[a])[node][g].List[ci]} 0 <= a && a < len(files) && (node in cmOf(fset, files[a])) && 0 <= g && g < len(cmOf(fset, files[a])[node]) && 0 <= ci && ci < len(cmOf(fset, files[a])[node][g].List) && isDir(cmOf(fset, files[a])[node][g].List[ci]) ==> has(result, cmOf(fset, files[a])[node][g].List[ci], node)
+//@   loop 1   index fi
+//@   loop 1   invariant [files]  forall a int, node ast.Node, g int, ci int :: {cmOf(fset, files[a])[node][g].List[ci]} 0 <= a && a < fi && (node in cmOf(fset, files[a])) && 0 <= g && g < len(cmOf(fset, files[a])[node]) && 0 <= ci && ci < len(cmOf(fset, files[a])[node][g].List) && isDir(cmOf(fset, files[a])[node][g].List[ci]) ==> has(dirs, cmOf(fset, files[a])[node][g].List[ci], node)
+//@   loop 2   visited seen
+//@   loop 2   invariant [cm]     cm == cmOf(fset, f)
+//@   loop 2   invariant [files]  forall a int, node ast.Node, g int, ci int :: {cmOf(fset, files[a])[node][g].List[ci]} 0 <= a && a < fi && (node in cmOf(fset, files[a])) && 0 <= g && g < len(cmOf(fset, files[a])[node]) && 0 <= ci && ci < len(cmOf(fset, files[a])[node][g].List) && isDir(cmOf(fset, files[a])[node][g].List[ci]) ==> has(dirs, cmOf(fset, files[a])[node][g].List[ci], node)
+//@   loop 2   invariant [nodes]  forall nd ast.Node, g int, ci int :: {cm[nd][g].List[ci]} (nd in seen) && 0 <= g && g < len(cm[nd]) && 0 <= ci && ci < len(cm[nd][g].List) && isDir(cm[nd][g].List[ci]) ==> has(dirs, cm[nd][g].List[ci], nd)
+//@   loop 3   index gi
+//@   loop 3   invariant [files]  forall a int, node2 ast.Node, g int, ci int :: {cmOf(fset, files[a])[node2][g].List[ci]} 0 <= a && a < fi && (node2 in cmOf(fset, files[a])) && 0 <= g && g < len(cmOf(fset, files[a])[node2]) && 0 <= ci && ci < len(cmOf(fset, files[a])[node2][g].List) && isDir(cmOf(fset, files[a])[node2][g].List[ci]) ==> has(dirs, cmOf(fset, files[a])[node2][g].List[ci], node2)
+//@   loop 3   invariant [nodes]  forall nd ast.Node, g int, ci int :: {cm[nd][g].List[ci]} (nd in seen) && 0 <= g && g < len(cm[nd]) && 0 <= ci && ci < len(cm[nd][g].List) && isDir(cm[nd][g].List[ci]) ==> has(dirs, cm[nd][g].List[ci], nd)
+//@   loop 3   invariant [groups] forall g int, ci int :: {cgs[g].List[ci]} 0 <= g && g < gi && 0 <= ci && ci < len(cgs[g].List) && isDir(cgs[g].List[ci]) ==> has(dirs, cgs[g].List[ci], node)
+//@   loop 4   index ki
+//@   loop 4   invariant [files]  forall a int, node2 ast.Node, g int, ci int :: {cmOf(fset, files[a])[node2][g].List[ci]} 0 <= a && a < fi && (node2 in cmOf(fset, files[a])) && 0 <= g && g < len(cmOf(fset, files[a])[node2]) && 0 <= ci && ci < len(cmOf(fset, files[a])[node2][g].List) && isDir(cmOf(fset, files[a])[node2][g].List[ci]) ==> has(dirs, cmOf(fset, files[a])[node2][g].List[ci], node2)
+//@   loop 4   invariant [nodes]  forall nd ast.Node, g int, ci int :: {cm[nd][g].List[ci]} (nd in seen) && 0 <= g && g < len(cm[nd]) && 0 <= ci && ci < len(cm[nd][g].List) && isDir(cm[nd][g].List[ci]) ==> has(dirs, cm[nd][g].List[ci], nd)
+//@   loop 4   invariant [groups] forall g int, ci int :: {cgs[g].List[ci]} 0 <= g && g < gi && 0 <= ci && ci < len(cgs[g].List) && isDir(cgs[g].List[ci]) ==> has(dirs, cgs[g].List[ci], node)
+//@   loop 4   invariant [comments] forall ci int :: {cg.List[ci]} 0 <= ci && ci < ki && isDir(cg.List[ci]) ==> has(dirs, cg.List[ci], node)
